@@ -82,7 +82,9 @@ func (p c19Payload) bytes() []byte {
 	return b
 }
 
-func c19Lit(b []byte) c19Payload { return c19Payload{Kind: "lit", Hex: hex.EncodeToString(b), N: len(b)} }
+func c19Lit(b []byte) c19Payload {
+	return c19Payload{Kind: "lit", Hex: hex.EncodeToString(b), N: len(b)}
+}
 
 var c19Gens = []c19Payload{
 	{Kind: "run", A: 0x00}, {Kind: "run", A: 0x61}, {Kind: "run", A: 0xff},
@@ -630,9 +632,9 @@ type c19H struct {
 		mu sync.Mutex
 		m  map[uint64]struct{}
 	}
-	infoMu  sync.Mutex
+	infoMu   sync.Mutex
 	violKeys map[string]int64
-	info    map[string][]any
+	info     map[string][]any
 }
 
 type c19Running struct {
@@ -2453,7 +2455,7 @@ func c19HistPayloads() (all, deepDec, deepComp []c19Payload) {
 		all = append(all, c19Payload{Kind: "p3", A: 0x61, B: 0x62, C: 0x63, N: n}, c19Payload{Kind: "lcg", Seed: 7, N: n})
 	}
 	deepDec = []c19Payload{all[1], all[2], all[7], all[8]} // 3 lcg, 1000 p3, 8191 lcg, 8193 p3
-	deepComp = []c19Payload{all[2], all[7]}                 // 1000 p3, 8191 lcg
+	deepComp = []c19Payload{all[2], all[7]}                // 1000 p3, 8191 lcg
 	return
 }
 
